@@ -26,6 +26,14 @@ impl J {
             J::Obj(o) => format!("{{{}}}", o.iter().map(|(k, v)| format!("{}:{}", quote(k), v.to_text())).collect::<Vec<_>>().join(",")),
         }
     }
+    /// the same document with object keys in another order (mode 1: reversed, mode 2: rotated by one), recursively
+    pub fn reordered(&self, mode: u64) -> J {
+        match self {
+            J::Arr(a) => J::Arr(a.iter().map(|x| x.reordered(mode)).collect()),
+            J::Obj(o) => { let mut v: Vec<(String, J)> = o.iter().map(|(k, x)| (k.clone(), x.reordered(mode))).collect(); match mode % 3 { 1 => v.reverse(), 2 => if !v.is_empty() { v.rotate_left(1) }, _ => {} } J::Obj(v) }
+            other => other.clone(),
+        }
+    }
     pub fn kind_name(&self) -> &'static str { match self { J::Null => "null", J::Bool(_) => "bool", J::Num(_) => "number", J::Str(_) => "string", J::Arr(_) => "array", J::Obj(_) => "object" } }
 }
 
